@@ -861,10 +861,13 @@ pub fn run_stmt(scn: &Value) -> Value {
         let f = f.as_str().unwrap();
         let v = match f {
             "_type" => {
-                if d["fields"].as_array().unwrap().iter().any(|x| x == "predicate") {
-                    json!("https://in-toto.io/Statement/v0.1")
-                } else {
-                    json!("link")
+                let v01 = d["fields"].as_array().unwrap().iter().any(|x| x == "predicate");
+                // "stype": the statement's own type string is the OTHER format's / an unknown one / empty
+                match d["stype"].as_str().unwrap_or("own") {
+                    "crossed" => json!(if v01 { "link" } else { "https://in-toto.io/Statement/v0.1" }),
+                    "unknown" => json!("https://in-toto.io/Statement/v9"),
+                    "empty" => json!(""),
+                    _ => json!(if v01 { "https://in-toto.io/Statement/v0.1" } else { "link" }),
                 }
             }
             "name" => json!("step"),
